@@ -29,12 +29,12 @@ HDR = r"<Header as BinDecodable<'r>>::read\(BinDecoder::new\(\^arg2\)\)"
 EXPECT = {
     S + 'zone_handler::catalog::send_error_response::{closure#0}': {1},
     S + 'server::error_response_handler::{closure#0}': {1},
-    '<hickory_server::server::ReportingResponseHandler<R> as hickory_server::server::response_handler::ResponseHandler>::send_response::{closure#0}': {1},
+    '<hickory_server::server::ReportingResponseHandler<R> as hickory_server::server::response_handler::ResponseHandler>::send_response::{closure@pin#0}': {1},
     S + 'zone_handler::catalog::lookup::{closure#0}': {1},
     S + 'zone_handler::catalog::zone_transfer::{closure#0}': {1},
     S + 'zone_handler::catalog::Catalog::update::{closure#0}': {1},
     S + 'zone_handler::catalog::Catalog::lookup::{closure#0}': {1},
-    '<hickory_server::zone_handler::catalog::Catalog as hickory_server::server::request_handler::RequestHandler>::handle_request::{closure#0}': {1},
+    '<hickory_server::zone_handler::catalog::Catalog as hickory_server::server::request_handler::RequestHandler>::handle_request::{closure@pin#0}': {1},
     S + 'server::ServerContext::handle_request::{closure#0}': {0, 1},
 }
 
@@ -137,7 +137,7 @@ def run(cx):
             ok = bool(re.search(r'^Metadata::new\((\^?arg\d+|deep\(_\d+\)|[^,]*?)(\.message)?\.metadata\.id,MessageType::Response,', s.term))
             cx.check('C11.S1', ok, g.path, s.key(), 'response-id-from-request', s.term[:160], s.loc)
     # ---------------------------------------------------------------- Catalog gates
-    c = cx.fn('C11.T1', '<hickory_server::zone_handler::catalog::Catalog as hickory_server::server::request_handler::RequestHandler>::handle_request::{closure#0}')
+    c = cx.fn('C11.T1', '<hickory_server::zone_handler::catalog::Catalog as hickory_server::server::request_handler::RequestHandler>::handle_request::{closure@pin#0}')
     if c:
         se = cx.calls(c, r'catalog::send_error_response$')
         bad = [s for s in se if 'ResponseCode::BADVERS' in s.term]
@@ -167,9 +167,9 @@ def run(cx):
     fd = cx.fn('C11.G1', S + 'zone_handler::catalog::Catalog::find')
     if fd:
         r = cx.returns(fd, r'.')
-        ok = len(r) == 1 and bool(re.search(r'^Option::or_else\(HashMap::get\(arg1\.handlers,arg2\),closure:Catalog::find::\{closure#0\}\)$', r[0].term))
+        ok = len(r) == 1 and bool(re.search(r'^Option::or_else\(HashMap::get\(arg1\.handlers,arg2\),closure:Catalog::find::\{closure@or_else#0\}\)$', r[0].term))
         cx.check('C11.G1', ok, fd.path, 'ret', 'exact-name-first-then-parent', '; '.join(s.term[:160] for s in r))
-    fc = cx.fn('C11.G1', S + 'zone_handler::catalog::Catalog::find::{closure#0}')
+    fc = cx.fn('C11.G1', S + 'zone_handler::catalog::Catalog::find::{closure@or_else#0}')
     if fc:
         rec = cx.returns(fc, r'^Catalog::find\(')
         cx.guard('C11.G1', rec, {'not-root': r'^!LowerName::is_root\(\^arg2\)$'}, expect=1, fn=fc)
